@@ -21,7 +21,8 @@ def work_dir():
   if _work is None:
     _work = os.path.join(VERIF, ".work", "w%d_%d" % (os.getpid(), int(time.time() * 1000) % 100000))
     os.makedirs(_work, exist_ok=True)
-    atexit.register(lambda: shutil.rmtree(_work, ignore_errors=True))
+    owner = os.getpid()
+    atexit.register(lambda: shutil.rmtree(_work, ignore_errors=True) if os.getpid() == owner else None)
   return _work
 
 
